@@ -885,8 +885,10 @@ func (p *Parser) parseNameString() ([]byte, parseResult) {
 
 	switch next {
 	case 0x00: // NullName (null string or a name terminator)
-		startOffset = p.r.Offset()
-		// return empty string
+		// return the root / parent prefixes (if any) without the terminator
+		str.Len = int(p.r.Offset()-startOffset) - 1
+		str.Cap = str.Len
+		return *(*[]byte)(unsafe.Pointer(&str)), res
 	case 0x2e: // DualNamePath := DualNamePrefix NameSeg NameSeg
 		endOffset = p.r.Offset() + uint32(amlNameLen*2)
 		if endOffset > p.r.pkgEnd {
